@@ -4,6 +4,7 @@ open AbtemVerif AbtemVerif.Proto AbtemVerif.Ptycho
 
 /- requests:
      `round <x>`                                        -> `ok <n>`
+     `shift <pos> <old>`                               -> `ok <fractional shift>`
      `window <cx> <cy> <nx> <ny> <sx> <sy>`              -> `ok <row indices> <col indices>`
      `positions <none | x,y;x,y;… | ~> <s0> <s1> <roi0> <roi1> <grid none|nx,ny> <steps none|sx,sy> <rot none|c,s> <pad none|px,py>`
                                                         -> `ok <x,y;x,y;…> <padx>,<pady>` | `err <kind>`
@@ -29,6 +30,10 @@ def handle : List String → String
     match parseRat? x with
     | some x => s!"ok {roundHalfEven x}"
     | none => "bad-op"
+  | ["shift", p, o] =>
+    match parseRat? p, parseRat? o with
+    | some p, some o => s!"ok {showRat (subpixelShift p o)}"
+    | _, _ => "bad-op"
   | ["window", cx, cy, nx, ny, sx, sy] =>
     match parseRat? cx, parseRat? cy, parseNat? nx, parseNat? ny, parseNat? sx, parseNat? sy with
     | some cx, some cy, some nx, some ny, some sx, some sy =>
